@@ -152,6 +152,7 @@ def st_root():
     return st.one_of(
         st.sampled_from([[1, 1], [2, 1], [4, 1], [6, 1], [8, 1], [8, 3], [3, 2], [10, 1], [1, 2]]),
         st.tuples(st.integers(1, 10), st.integers(1, 10)).map(list),
+        st.tuples(st.integers(9, 30), st.integers(9, 30)).map(list),  # numerator and denominator both large (11/10, 13/15, 29/30)
         st.sampled_from([["mult", 4, 1.82], ["mult", 2, 1.82], ["mult", 6, 0.5], ["mult", 8, 1.5]]),
     )
 
